@@ -129,10 +129,21 @@ func (s *Acceptor) serve(parentCtx context.Context, netConn net.Conn) {
 
 	eg := errgroup.Group{}
 
+	// handedOver is closed once everything the connection reader had received has been given to the handler.
+	handedOver := make(chan struct{})
+
 	eg.Go(func() error {
 		defer cancelFun()
 
 		err := conn.serve()
+
+		// The messages received before the connection ended are served first:
+		// the handler is told about the end of the connection after them.
+		select {
+		case <-handedOver:
+		case <-ctx.Done():
+		}
+
 		if err != nil {
 			err = fmt.Errorf("%s: %w", err, ErrConnClosed)
 			if !strings.Contains(err.Error(), "use of closed network connection") {
@@ -175,20 +186,15 @@ func (s *Acceptor) serve(parentCtx context.Context, netConn net.Conn) {
 	})
 
 	eg.Go(func() error {
-		defer cancelFun()
+		defer close(handedOver)
 
-		for {
-			select {
-			case <-ctx.Done():
-				return nil
-
-			case msg, ok := <-conn.Reader():
-				if !ok {
-					return nil
-				}
-				handler.ServeIncoming(msg)
-			}
+		// The reader closes its channel when it ends: until then, and until the channel
+		// is empty, every message is passed on (ServeIncoming returns at once when the handler has stopped).
+		for msg := range conn.Reader() {
+			handler.ServeIncoming(msg)
 		}
+
+		return nil
 	})
 
 	_ = eg.Wait()
